@@ -28,6 +28,7 @@ StepVal == /\ st.kind = "val" /\ st.k < K
            /\ \E w \in Mods(st.tn, NoEnv, st.v) :
                 /\ st' = [st EXCEPT !.v = w, !.k = @ + 1]
                 /\ EmitEdges => PrintT(ToJson(<<"@@", [kind |-> "edge", tn |-> st.tn, hastl2 |-> TY(st.tn).tl2,
+                                                       negzero |-> HasNegZero(st.tn, st.v) \/ HasNegZero(st.tn, w),
                                                        from |-> Enc(st.tn, st.v), to |-> Enc(st.tn, w)]>>))
 
 Muts(b) == {SubSeq(b, 1, j) : j \in 0..(Len(b) - 1)}
@@ -63,11 +64,12 @@ Payload ==
         tl1 |-> IF TY(st.tn).origin2 THEN <<>> ELSE Bytes(Enc1(st.tn, NoEnv, st.v, TRUE)),
         tl1b |-> IF TY(st.tn).origin2 THEN <<>> ELSE Bytes(Enc1(st.tn, NoEnv, st.v, FALSE)),
         small |-> ~TY(st.tn).origin2 /\ SmallElems(st.tn, NoEnv, st.v),
+        negzero |-> HasNegZero(st.tn, st.v),
         hastl2 |-> TY(st.tn).tl2,
         tl2 |-> IF TY(st.tn).tl2 THEN Enc2(st.tn, st.v, FALSE) ELSE <<>>,
         json |-> WJ(st.tn, NoEnv, st.v, "canon")]
   ELSE IF st.kind = "json"
-  THEN [kind |-> "json", tn |-> st.tn, m |-> st.m, bad |-> st.m \in BadModes,
+  THEN [kind |-> "json", tn |-> st.tn, m |-> st.m, bad |-> st.m \in BadModes, negzero |-> HasNegZero(st.tn, st.v),
         alt |-> WJ(st.tn, NoEnv, st.v, st.m),
         json |-> WJ(st.tn, NoEnv, st.v, "canon"),
         tl1 |-> IF TY(st.tn).origin2 THEN <<>> ELSE Bytes(Enc1(st.tn, NoEnv, st.v, TRUE)),
